@@ -38,10 +38,39 @@ def one_case(rng, tier, wrapped=False):
     return case.line()
 
 
+def wrapper_list_case(rng):
+    """every list-form wrapper (re_concat_list / re_union_list / re_inter_list / re_diff_list) with 0..3
+    operands that differ as languages, through the thread-local manager"""
+    al = Alphabet(rng)
+    case = Case(True)
+    ops = []
+    for _ in range(4):
+        k = rng.random()
+        if k < 0.4:
+            ops.append(case.push("str " + word([al.rand_char(rng) for _ in range(rng.choice([1, 2]))])))
+        elif k < 0.7:
+            a, b = sorted((al.rand_char(rng), al.rand_char(rng)))
+            x = case.push("smtrange 1 %d 1 %d" % (a, b))
+            ops.append(case.push(rng.choice(["plus %d", "star %d", "opt %d"]) % x))
+        else:
+            x = case.push("allchar"); ops.append(case.push("pow %d %d" % (x, rng.choice([1, 2]))))
+    base = ops[0]
+    k = rng.choice([0, 1, 2, 3])
+    sel = ops[1:1 + k]
+    op = rng.choice(["diffl", "diffl", "unionl", "interl", "concatl"])
+    if op == "diffl":
+        t = case.push("diffl %d %d%s" % (base, len(sel), "".join(" %d" % x for x in sel)))
+    else:
+        t = case.push("%s %d%s" % (op, len(sel), "".join(" %d" % x for x in sel)))
+    case.obs("nullable %d" % t)
+    case.obs("memall %d 3 %s" % (t, word(al.letters[:3])))
+    return case.line()
+
+
 def generate(rng, tier):
     n = 4000 if tier == "quick" else 40000
-    cases = []
-    nw = 0
+    cases = [wrapper_list_case(rng) for _ in range(300 if tier == "quick" else 3000)]
+    nw = len(cases)
     for i in range(n):
         wrapped = rng.random() < 0.2
         nw += wrapped
